@@ -4,6 +4,9 @@ package hreader
 
 import (
 	"fmt"
+	"os"
+	"sync"
+	"sync/atomic"
 	"testing"
 	"time"
 
@@ -363,6 +366,212 @@ func TestC04_PendingEvent(t *testing.T) {
 		sc.NonTrivial(true)
 		sc.Fingerprint(fmt.Sprint("pending", kind, idx))
 		sc.Sample(map[string]any{"scenario": "stop while the drop request waits for room in the event channel", "kind": kind, "shards": ns})
+		sc.Done()
+	})
+}
+
+// TestC04_Lifecycle: the drop must be requested exactly once also when the collection reached its streams through a more
+// eventful life: a repeated notification that overlaps the first one (catalog listing + watch event) and / or a stop followed by
+// a new start on the SAME channel manager (pause / resume of a task while another task keeps the target alive), with the partition
+// registered again. Afterwards every shard delivers the drop.
+func TestC04_Lifecycle(t *testing.T) {
+	rapid.Check(t, func(t *rapid.T) {
+		sc := stats.New("C04")
+		w := newWorld(worldOpts{ttIntervalMs: 10000000, bufSize: 4})
+		defer w.close()
+		kind := rapid.SampledFrom([]string{"dropCollection", "dropPartition"}).Draw(t, "kind")
+		repeatStart := rapid.Bool().Draw(t, "repeatedNotification")
+		stopResume := rapid.Bool().Draw(t, "stopAndStartAgain")
+		ns := rapid.IntRange(1, 3).Draw(t, "shards")
+		idx := drawSubset(t, 3, ns, "placement")
+		parts := []*partDef{{name: "_default"}, {name: "p1"}}
+		c := w.addCollection(0, "default", idx, idx, parts, false)
+		// another collection lives on the same channels (all of them, or only the first): its handlers exist before c is started
+		// and survive a stop of c
+		oidx := idx
+		if rapid.Bool().Draw(t, "otherOnFirstChannelOnly") {
+			oidx = idx[:1]
+		}
+		other := w.addCollection(1, "default", oidx, oidx, []*partDef{{name: "_default"}}, false)
+		if err := w.start(other); err != nil {
+			t.Fatalf("VERIF-TROUBLE start other: %v", err)
+		}
+		for _, ost := range other.streams {
+			ost.posKd = "pchannel"
+			if !w.waitRegistered(ost, 20*time.Second) {
+				t.Fatalf("VERIF-TROUBLE other stream not registered")
+			}
+		}
+		startC := func(again bool) {
+			var concErr chan error
+			if repeatStart && !again {
+				concErr = make(chan error, 1)
+				var arrived atomic.Int32
+				both := make(chan struct{})
+				// the repeated notification is started first and held inside its downstream lookup (after the early
+				// already-replicating check) until the other notification has got there too
+				w.tgt.SetBeforeCollectionInfo(func(db, name string) {
+					if name != c.name {
+						return
+					}
+					switch arrived.Add(1) {
+					case 1:
+						select {
+						case <-both:
+						case <-time.After(2 * time.Second):
+						}
+					case 2:
+						close(both)
+					}
+				})
+				// should both notifications get as far as subscribing the shards, let them win different shards: on every shard but
+				// the first the subscription that arrives first waits (150 ms at most) for a second one and lets it pass
+				var hmu sync.Mutex
+				waiting := map[string]chan struct{}{}
+				first := c.streams[0].srcV
+				w.disp.HoldRegister = func(v string) {
+					mine := false
+					for _, st := range c.streams {
+						mine = mine || st.srcV == v
+					}
+					if os.Getenv("VERIF_TRACE") != "" {
+						fmt.Printf("TRACE register attempt %s mine=%v\n", v, mine)
+					}
+					if !mine || v == first {
+						return
+					}
+					hmu.Lock()
+					if ch, ok := waiting[v]; ok {
+						delete(waiting, v)
+						hmu.Unlock()
+						close(ch) // the second arrival passes, the first may go on afterwards
+						if os.Getenv("VERIF_TRACE") != "" {
+							fmt.Printf("TRACE second arrival passes on %s\n", v)
+						}
+						return
+					}
+					ch := make(chan struct{})
+					waiting[v] = ch
+					hmu.Unlock()
+					select {
+					case <-ch:
+						time.Sleep(5 * time.Millisecond)
+					case <-time.After(150 * time.Millisecond):
+						if os.Getenv("VERIF_TRACE") != "" {
+							fmt.Printf("TRACE first arrival timed out on %s\n", v)
+						}
+						hmu.Lock()
+						delete(waiting, v)
+						hmu.Unlock()
+					}
+				}
+				go func() {
+					concErr <- w.mgr.StartReadCollection(w.taskCtx(), (&modelDB{c.db}).info(), c.info, c.seek, nil)
+				}()
+				for dl := time.Now().Add(2 * time.Second); arrived.Load() == 0 && time.Now().Before(dl); {
+					time.Sleep(200 * time.Microsecond)
+				}
+			}
+			if err := w.start(c); err != nil {
+				t.Fatalf("StartReadCollection failed (repeated=%v, again=%v): %v", concErr != nil, again, err)
+			}
+			if concErr != nil {
+				err := <-concErr
+				if os.Getenv("VERIF_TRACE") != "" {
+					fmt.Printf("TRACE repeated notification returned %v\n", err)
+				}
+				if err != nil {
+					t.Fatalf("a repeated notification of the collection had an effect: StartReadCollection failed: %v", err)
+				}
+				w.tgt.SetBeforeCollectionInfo(nil)
+			}
+			for _, st := range c.streams {
+				deadline := time.Now().Add(20 * time.Second)
+				for !w.disp.Registered(st.srcV) && time.Now().Before(deadline) {
+					w.quiesce(50 * time.Millisecond)
+				}
+				if !w.disp.Registered(st.srcV) {
+					t.Fatalf("VERIF-TROUBLE stream %s not registered (again=%v)", st.srcV, again)
+				}
+			}
+			if b, ok := w.quiesce(20 * time.Second); !ok {
+				t.Fatalf("VERIF-TROUBLE quiesce: %s", b)
+			}
+			if err := w.mgr.AddPartition(w.taskCtx(), (&modelDB{c.db}).info(), c.info, partInfo(c, parts[1])); err != nil {
+				t.Fatalf("VERIF-TROUBLE AddPartition: %v", err)
+			}
+		}
+		for _, st := range c.streams {
+			st.posKd = "pchannel"
+		}
+		startC(false)
+		tag := int64(0)
+		cur := ts(1700000000000, 0)
+		feedData := func(n int) {
+			for i := 0; i < n; i++ {
+				st := c.streams[rapid.IntRange(0, ns-1).Draw(t, "dataShard")]
+				tag++
+				p := &packDef{stream: st, idx: len(st.script), id: []byte(fmt.Sprintf("c0s%dp%d", st.shard, len(st.script))), begin: cur, end: cur + 1<<18}
+				p.msgs = []*msgDef{{kind: "insert", ts: cur + 1, tag: tag, rows: 1, part: parts[rapid.IntRange(0, 1).Draw(t, "part")], pack: p}}
+				cur += 2 << 18
+				st.script = append(st.script, p)
+				w.feedNext(st)
+			}
+		}
+		feedData(rapid.IntRange(0, 3).Draw(t, "packsBefore"))
+		if stopResume {
+			if b, ok := w.quiesce(20 * time.Second); !ok {
+				t.Fatalf("VERIF-TROUBLE quiesce: %s", b)
+			}
+			if err := w.mgr.StopReadCollection(w.taskCtx(), c.info); err != nil {
+				t.Fatalf("VERIF-TROUBLE StopReadCollection: %v", err)
+			}
+			if b, ok := w.quiesce(20 * time.Second); !ok {
+				t.Fatalf("VERIF-TROUBLE quiesce after the stop: %s", b)
+			}
+			startC(true)
+			feedData(rapid.IntRange(0, 2).Draw(t, "packsAfterResume"))
+		}
+		dropTs := ts(1700000009000, 0)
+		for _, i := range rapid.Permutation(seq(ns)).Draw(t, "dropOrder") {
+			st := c.streams[i]
+			tag++
+			p := &packDef{stream: st, idx: len(st.script), id: []byte(fmt.Sprintf("c0s%dpdrop", st.shard)), begin: dropTs - 1, end: dropTs + 1<<18}
+			p.msgs = []*msgDef{{kind: kind, ts: dropTs, tag: tag, part: parts[1], pack: p}}
+			st.script = append(st.script, p)
+			if !w.feedNext(st) {
+				t.Fatalf("VERIF-TROUBLE the drop could not be fed on %s", st.srcV)
+			}
+		}
+		if b, ok := w.quiesce(40 * time.Second); !ok {
+			t.Fatalf("VERIF-TROUBLE quiescence not reached: %s", b)
+		}
+		out, events := w.snapshot()
+		drops := 0
+		for _, ev := range events {
+			switch ev.EventType {
+			case api.ReplicateDropCollection, api.ReplicateDropPartition:
+				if (kind == "dropCollection") != (ev.EventType == api.ReplicateDropCollection) || ev.CollectionInfo.GetID() != c.id {
+					t.Fatalf("unexpected drop request %v\n%s", ev.EventType, w.dump(out))
+				}
+				drops++
+			case api.ReplicateError:
+				t.Fatalf("error event raised (repeated=%v stopAndStartAgain=%v %s, %d shards): %v\n%s", repeatStart, stopResume, kind, ns, ev.Error, w.dump(out))
+			}
+		}
+		if os.Getenv("VERIF_TRACE") != "" {
+			fmt.Printf("TRACE case kind=%s repeat=%v stopResume=%v shards=%d drops=%d events=%d\n", kind, repeatStart, stopResume, ns, drops, len(events))
+		}
+		if drops != 1 {
+			t.Fatalf("every shard delivered the %s message but %d drop requests were issued (repeated notification=%v, stop and start again=%v, %d shards)\n%s", kind, drops, repeatStart, stopResume, ns, w.dump(out))
+		}
+		sc.Class("lifecycle:" + kind)
+		sc.ClassIf(repeatStart, "repeated-notification-overlapping-the-first")
+		sc.ClassIf(stopResume, "stop-and-start-again-on-the-same-manager")
+		sc.Class(fmt.Sprintf("shards:%d", ns))
+		sc.NonTrivial((repeatStart || stopResume) && ns >= 2)
+		sc.Fingerprint(fmt.Sprint("life", kind, repeatStart, stopResume, idx, w.hist))
+		sc.Sample(map[string]any{"kind": kind, "repeated_notification": repeatStart, "stop_and_start_again": stopResume, "shards": ns})
 		sc.Done()
 	})
 }
